@@ -13,6 +13,13 @@
 (*        object at a time (m, "the focus"); Swap changes which one.        *)
 (*   arrs the slices calls returned or were given, still in the caller's    *)
 (*        hands (sequence of sequences)                                     *)
+(*   ens  the enumerators opened on the focus that are still usable: each   *)
+(*        knows its kind (keys, values, entries) and what it has yielded so *)
+(*        far.  The statement promises something for an enumeration only    *)
+(*        "while the structure is not being modified": every modifying call *)
+(*        (and moving the calls to another object) drops them; lookups,     *)
+(*        membership tests, Size, renderings, other enumerations and steps  *)
+(*        of other enumerators do NOT -- they are not modifications.        *)
 (*   cfg  the conventions of the concrete type (fixed during a history):   *)
 (*          t     name of the type (which shape its answers have)          *)
 (*          set   the type is a set                                        *)
@@ -47,11 +54,13 @@ EXTENDS Bytes, TLC
 
 DX == INSTANCE DataX WITH buf <- <<>>, written <- 0, prog <- <<>>, rpos <- 0, rd <- <<>>
 
-VARIABLES m, cfg, held, arrs
-vars == <<m, cfg, held, arrs>>
-\* a call on the object under test leaves its configuration, every other live
-\* object and every slice in the caller's hands as they are
-Same == UNCHANGED <<cfg, held, arrs>>
+VARIABLES m, cfg, held, arrs, ens
+vars == <<m, cfg, held, arrs, ens>>
+\* a (modifying) call on the object under test leaves its configuration, every
+\* other live object and every slice in the caller's hands as they are; the
+\* enumerators opened before it are not used any more (the statement is silent
+\* about an enumeration that goes on across a modification)
+Same == UNCHANGED <<cfg, held, arrs>> /\ ens' = <<>>
 
 EmptyFn == [x \in {} |-> 0]
 Range(s) == {s[i] : i \in 1..Len(s)}
@@ -106,11 +115,11 @@ PutAll(ks, vs) == /\ (cfg.set \/ Len(vs) = Len(ks))
 \* objects of the same type over the same keys, m is the one calls are
 \* currently made on ("the focus"); a call on the focus changes no held object.
 \* a new empty object of the type (any constructor)
-NewObj == held' = Append(held, EmptyFn) /\ UNCHANGED <<m, cfg, arrs>>
+NewObj == held' = Append(held, EmptyFn) /\ UNCHANGED <<m, cfg, arrs, ens>>
 \* from now on calls are made on held object h; the former focus is held in its place
 Swap(h) == /\ h \in 1..Len(held)
            /\ m' = held[h] /\ held' = [held EXCEPT ![h] = m]
-           /\ UNCHANGED <<cfg, arrs>>
+           /\ ens' = <<>> /\ UNCHANGED <<cfg, arrs>>
 \* the entries of g put into f (keys are distinct: the order cannot matter)
 Merge(f, g) == [k \in DOMAIN f \cup DOMAIN g |-> IF k \in DOMAIN g THEN g[k] ELSE f[k]]
 \* put-all with held object h as the argument (h = 0: the focus itself); the
@@ -119,20 +128,27 @@ PutAllFrom(h) == /\ h \in 0..Len(held)
                  /\ m' = Merge(m, IF h = 0 THEN m ELSE held[h])
                  /\ Same
 \* an equal map becomes one more live object (the original of a wire round trip)
-Fork == held' = Append(held, m) /\ UNCHANGED <<m, cfg, arrs>>
+\* (the object under test is REPLACED by the map read back: enumerators of the
+\* replaced object are not used any more)
+Fork == held' = Append(held, m) /\ ens' = <<>> /\ UNCHANGED <<m, cfg, arrs>>
 
 \* `arrs` are the slices a call returned or was given and that the caller still
 \* has: a later call on any object neither changes them nor is changed by what
 \* the caller writes into them
-ArrHold(seq) == arrs' = Append(arrs, seq) /\ UNCHANGED <<m, cfg, held>>
+ArrHold(seq) == arrs' = Append(arrs, seq) /\ UNCHANGED <<m, cfg, held, ens>>
 ArrIs(a, seq) == a \in 1..Len(arrs) /\ seq = arrs[a]
 ArrWrite(a, seq) == /\ a \in 1..Len(arrs) /\ Len(seq) = Len(arrs[a])
                     /\ arrs' = [arrs EXCEPT ![a] = seq]
-                    /\ UNCHANGED <<m, cfg, held>>
+                    /\ UNCHANGED <<m, cfg, held, ens>>
 
-\* every other call (lookups, membership, enumerations, rendering, sorting the
-\* table, writing the wire form, the wire round trip) leaves the map as it is
+\* every other call (lookups, membership, enumerations, rendering, writing the
+\* wire form) leaves the map as it is -- and every open enumerator usable
 ReadOnly == UNCHANGED vars
+\* sorting the table / replacing the object by its wire round trip: the same map,
+\* but the structure was rebuilt -- open enumerators are not used any more
+Rebuild == ens' = <<>> /\ UNCHANGED <<m, cfg, held, arrs>>
+\* the caller lets go of its enumerators
+EnumForget == ens' = <<>> /\ UNCHANGED <<m, cfg, held, arrs>>
 
 \* ---- what an add-like call may answer --------------------------------------
 \* DESIGN 3/C12 (lenient): the types disagree on whether add answers the value
@@ -160,6 +176,36 @@ ValuesBagOK(seq) == /\ Len(seq) = Size
 ProjOKOf(f, ks, vs) == /\ Len(ks) = Cardinality(DOMAIN f) /\ Len(vs) = Len(ks)
                        /\ {<<ks[i], vs[i]>> : i \in 1..Len(ks)} = PairsOf(f)
 ProjOK(ks, vs) == ProjOKOf(m, ks, vs)
+
+\* ---- stepped enumerations -------------------------------------------------------
+\* An enumerator is opened, then asked "more?" and for the next element one call
+\* at a time, with any read-only calls (also opening and stepping other
+\* enumerators) in between.  What it has yielded so far must at every step be the
+\* beginning of an arrangement of the stored elements; it has more iff it has
+\* not yet yielded all of them.  kind: "k" keys, "v" values, "e" <<key, value>>.
+EnumKinds == {"k", "v", "e"}
+EnumOpen(kind) == /\ kind \in EnumKinds
+                  /\ ens' = Append(ens, [kind |-> kind, out |-> <<>>])
+                  /\ UNCHANGED <<m, cfg, held, arrs>>
+\* x may be yielded next by an enumeration of this kind that yielded out so far
+ElemOK(kind, out, x) ==
+  CASE kind = "k" -> x \in Stored /\ x \notin Range(out)
+    [] kind = "e" -> <<x[1], x[2]>> \in PairsOf(m) /\ <<x[1], x[2]>> \notin Range(out)
+    [] kind = "v" -> Count(out, x) < Cardinality({k \in Stored : m[k] = x})
+    [] OTHER -> FALSE
+EnumMore(i) == Len(ens[i].out) < Size
+EnumNext(i, x) == /\ i \in 1..Len(ens) /\ EnumMore(i)
+                  /\ ElemOK(ens[i].kind, ens[i].out, x)
+                  /\ ens' = [ens EXCEPT ![i].out = Append(@, IF ens[i].kind = "e" THEN <<x[1], x[2]>> ELSE x)]
+                  /\ UNCHANGED <<m, cfg, held, arrs>>
+\* what an enumerator yielded is the beginning of an arrangement; all of it iff
+\* it has no more (in the words of the bag operators above)
+EnumBagOK(en) == CASE en.kind = "k" -> KeysBagOK(en.out)
+                   [] en.kind = "v" -> ValuesBagOK(en.out)
+                   [] en.kind = "e" -> EntriesBagOK(en.out)
+EnumsOK == \A i \in 1..Len(ens) :
+             /\ Len(ens[i].out) <= Size
+             /\ (Len(ens[i].out) = Size) => EnumBagOK(ens[i])
 
 \* ---- the wire form of the int-to-int map -------------------------------------
 \* decimal count, then per entry decimal key, decimal value (DataX "Decimal":
@@ -204,7 +250,7 @@ FromWire(pairs) == [k \in {pairs[i][1] : i \in 1..Len(pairs)} |->
 Live     == {m} \cup Range(held)
 SetOK    == cfg.set => \A f \in Live : \A k \in DOMAIN f : f[k] = k
 RefuseOK == cfg.rej => \A f \in Live : cfg.ek \notin DOMAIN f
-InvAll   == SetOK /\ RefuseOK
+InvAll   == SetOK /\ RefuseOK /\ EnumsOK
 
-InitWith(c) == m = EmptyFn /\ cfg = c /\ held = <<>> /\ arrs = <<>>
+InitWith(c) == m = EmptyFn /\ cfg = c /\ held = <<>> /\ arrs = <<>> /\ ens = <<>>
 =============================================================================
